@@ -14,7 +14,7 @@ open SaVerif.Txn
 /-! ## a disconnect invalidates the Connection -/
 
 /-- the error is a disconnect: classified so by the dialect, or by a `handle_error` listener -/
-def IsDisc (c : Conn) (k : FKind) : Prop := k = .disc ∨ c.db.listener = .forceDisc
+def IsDisc (c : Conn) (k : FKind) : Prop := k = .disc ∨ (c.db.listener = .forceDisc ∧ k = .err)
 
 /-- **disconnect_invalidates**: for EVERY state holding a DBAPI connection, the handling of
     an error classified as a disconnect returns the disconnect result (DBAPIError with
@@ -132,6 +132,19 @@ theorem reconnect_after_rollback (c : Conn) (hb : Blocked c) (hroot : RootPtr c)
   rw [r2] at this
   exact this
 
+/-- the same for every REACHABLE blocked state: the structural hypotheses are invariants
+    (`wf_all`), so after any history that ends invalidated inside a transaction, `rollback()`
+    un-blocks the Connection -/
+theorem reconnect_after_rollback_reachable (rs : ResetStyle) (ls : Listener) (eo : List Bool)
+    (ops : List Op) (hb : Blocked ((Conn.connect (DB.init rs ls eo)).run ops)) :
+    let c := (Conn.connect (DB.init rs ls eo)).run ops
+    c.rollback.2 = .ok ∧ c.rollback.1.db = c.db ∧ c.rollback.1.invalidated = true ∧
+    c.rollback.1.inTransaction = false ∧ c.rollback.1.inNested = false := by
+  have hw := run_wfc ops (Conn.connect (DB.init rs ls eo)) (wfc_empty rfl rfl rfl)
+  obtain ⟨r1, r2, r3, r4, r5, r6, _⟩ := blocked_rollback hb hw.1 hw.2
+  exact ⟨r1, r2, by simp [Conn.invalidated, r5, r6], by simp [Conn.inTransaction, r3],
+    by simp [Conn.inNested, r4]⟩
+
 /-- the connection obtained by that reconnect is clean and not one of the stale ones:
     combination with C24's `checkout_held_clean` -/
 theorem reconnect_clean_connection (c : Conn) (hc : PoolClean c.db) :
@@ -152,7 +165,7 @@ theorem non_disconnect_leaves_pool (c : Conn) (q : Sql) (hd : c.hasDbapi = true)
     (c.execute q).1.db.idle = c.db.idle ∧ (c.execute q).1.db.invalTime = c.db.invalTime := by
   rcases execute_ps c q hd hl with h | h
   · exact ⟨by rw [h.hasDbapi]; exact hd, h.rid, h.idle, h.invalTime⟩
-  · rcases hr with hr | hr <;> rw [h] at hr <;> cases hr
+  · rcases h with h | h <;> rcases hr with hr | hr <;> rw [h] at hr <;> cases hr
 
 /-- the handler itself, for every state: not a disconnect ⇒ connection and pool unchanged -/
 theorem plain_error_leaves_pool (c : Conn) (hl : c.db.listener ≠ .forceDisc) :
